@@ -12,6 +12,10 @@ from fractions import Fraction
 
 from fsa.flow import PARAM, must_pass
 from fsa.match import (
+    pred_call_attr,
+    pred_raise,
+    pred_series_store,
+    pred_compare_names,
     Affine,
     Cmp,
     affine,
@@ -50,9 +54,13 @@ def _construct(q: str) -> str:
 def r1_reject_first(R, shapes) -> None:
     """The min_iter > max_iter ValueError precedes every effect."""
     for sh in shapes:
-        t = sh.minmax_test()
+        try:
+            t = sh.minmax_test()
+        except AnchorMissing:
+            R.require(sh.q, 0, 'rejection of min_iter > max_iter', fi=sh.fi, pred=pred_compare_names('min_iter', 'max_iter'))
+            continue
         rs = [n for n in sh.raises('ValueError') if (t.id, 'T') in sh.guards_of(n.id)]
-        if not R.expect(sh.q, len(rs), 1, '`raise ValueError` under min_iter > max_iter'):
+        if not R.require(sh.q, len(rs), '`raise ValueError` under min_iter > max_iter', fi=sh.fi, pred=pred_raise('ValueError')):
             continue
         r = rs[0]
         bad = [e for e in sh.eff if e in sh.on_path_between(sh.cfg.entry, r.id)]
@@ -80,7 +88,8 @@ def r2_offset(R, sh: SolverShape) -> None:
         s for s in sh.stores
         if s.owner == 'self' and s.series.startswith('<dyn:') and not sh.in_loop(s.node)
     ]
-    if not R.expect(sh.q, len(copies), 1, 'offset copy store self.__dict__["_"+name][t] = ...'):
+    if not R.require(sh.q, len(copies), 'offset copy: series[t] = series[t + offset] over self.endogenous', fi=sh.fi,
+                     pred=lambda n: isinstance(n, ast.Assign) and 'offset' in text(n.value) and isinstance(n.targets[0], ast.Subscript)):
         return
     cp = copies[0]
     # (a) shape of the copy
@@ -338,10 +347,10 @@ def r6_exit_table(R, sh: SolverShape, linker: bool = False) -> None:
                 f'return expression `{text(v)}` is not `status == SolutionStatus.SOLVED.value`', where=sh.where(r))
         R.check(fs.id in sh.dom[r.id] and fi_.id in sh.dom[r.id], sh.q, 'return-after-stores',
                 'the return is dominated by the final stores', 'a return bypasses the final stores', where=sh.where(r))
-    R.expect(sh.q, len(rets), 1, 'return statement')
+    R.require(sh.q, len(rets), 'return of the solved flag', fi=sh.fi, pred=lambda n: isinstance(n, ast.Return))
     # (f) NonConvergenceError exactly under FAILED and failures == 'raise'
     ncs = sh.raises('NonConvergenceError')
-    if R.expect(sh.q, len(ncs), 1, 'raise NonConvergenceError'):
+    if R.require(sh.q, len(ncs), 'raise NonConvergenceError', fi=sh.fi, pred=pred_raise('NonConvergenceError')):
         n = ncs[0]
         atoms = [(a, t) for (a, t, tn) in guard_atoms(sh, n.id) if not sh.in_loop(tn) and sh.loop.id in sh.dom[tn.id]]
         has_failed = has_raise = False
@@ -383,7 +392,8 @@ def r7_definite_assignment(R, shapes) -> None:
 def r8_hooks(R, sh: SolverShape) -> None:
     before = sh.calls_self('solve_t_before')
     after = sh.calls_self('solve_t_after')
-    if not R.expect(sh.q, len(before), 1, 'self.solve_t_before() call') or not R.expect(sh.q, len(after), 1, 'self.solve_t_after() call'):
+    if not R.require(sh.q, len(before), 'self.solve_t_before() call', fi=sh.fi, pred=pred_call_attr('solve_t_before')) \
+            or not R.require(sh.q, len(after), 'self.solve_t_after() call', fi=sh.fi, pred=pred_call_attr('solve_t_after')):
         return
     nb, na = before[0], after[0]
     R.check(len(before) == 1 and not nb.loops, sh.q, 'before-once', 'solve_t_before runs outside every loop',
@@ -417,7 +427,7 @@ def r9_solve_period(R) -> None:
     R.saw_function(fi, cfg)
     rets = [n for n in cfg.nodes if isinstance(n.ast, ast.Return)]
     calls = [n for n in rets if is_self_call(n.ast.value, 'solve_t')]
-    if not R.expect(q, len(calls), 1, 'return self.solve_t(...)'):
+    if not R.require(q, len(calls), 'return self.solve_t(...)', fi=fi, pred=pred_call_attr('solve_t')):
         return
     R.check(len(rets) == 1, q, 'single-return', 'solve_period returns the result of solve_t', 'solve_period has other return statements')
     call = calls[0].ast.value
@@ -514,7 +524,7 @@ def r1_solve(R) -> None:
         R.saw_function(fi, cfg)
         want = cmp_of(expr('min_iter > max_iter')).as_int()
         ts = [n for n in cfg.nodes if n.kind == 'test' and cmp_of(n.ast) is not None and cmp_of(n.ast).as_int() == want]
-        if not R.expect(q, len(ts), 1, '`min_iter > max_iter` test'):
+        if not R.require(q, len(ts), 'rejection of min_iter > max_iter', fi=fi, pred=pred_compare_names('min_iter', 'max_iter')):
             continue
         t = ts[0]
         dom = dominators(cfg)
